@@ -30,6 +30,7 @@ w('C01', 'fixed_instr_empty', 'PRINT INSTR("", ""); INSTR("abc", "c")\n', {'prin
 w('C01', 'fixed_locate_one_arg', 'LOCATE 5\nLOCATE , 7\nPRINT "x"\n', {'prints': 'x\r\n'})
 w('C01', 'fixed_label_in_case', 'x = 2\nSELECT CASE x\nCASE 2\nGOTO foo\nPRINT "no"\nfoo: PRINT "yes"\nEND SELECT\n', {'prints': 'yes\r\n'})
 w('C01', 'fixed_read_implicit_array', 'READ a(3), b$(2)\nPRINT a(3); b$(2)\nDATA 5, x\n', {'prints': ' 5 x\r\n'})
+w('C06', 'fixed_unknown_type_name', 'PRINT LEN("a" * 2)\nSUB f (x AS INTEGER)\nEND SUB\n')
 w('C08', 'fixed_const_overflow_dbg', 'CONST s% = 32767 + 32766\nPRINT 1\n')
 w('C01', 'fixed_double_overflow_inf', 'x# = 1D+308\nx# = x# * 10#\nPRINT x#\n', {'prints': '', 'outcome': 'INVALID_CELL_VALUE'})
 w('C02', 'fixed_fold_string_compare', 'PRINT "a" = "b"; "a" < "b"\nIF "x" >= "x" THEN PRINT "t"\n')
